@@ -457,21 +457,36 @@ static void op_ks(const Op &o, RunResult &r, int opi) {
         { Snap s(r, opi, what); lweKeySwitch(y, ks, x); }
         CHECK_UNCHANGED(obs::hash_lwe(x, nin), hx, "sample");
         CHECK_UNCHANGED(obs::hash_ks(ks), hk, "ks");
-        uint32_t acc = (uint32_t) x->b; int wraps = 0, ups = 0; int64_t maxdev = 0;
-        for (int i = 0; i < nin; i++) {
-            uint32_t ai = (uint32_t) x->a[i], at = obs::ks_round(ai, t, bb), trunc = ai & ~(unit - 1);
-            if (at != trunc) ups++;
-            if (at == 0 && trunc != 0) wraps++;
-            maxdev = std::max<int64_t>(maxdev, std::llabs((int64_t) sdiff(ai, at)));
-            acc -= (uint32_t) kin->key[i] * at;
-            for (int j = 0; j < t; j++) { uint32_t d = (at >> (32 - (j + 1) * bb)) & (uint32_t) (base - 1); if (d) acc -= (uint32_t) noise[((size_t) i * t + j) * base + d]; }
+        // the property fixes round-to-nearest, not what happens on an exact tie (error exactly half a unit either way): the identity
+        // is evaluated under the three consistent tie conventions (up = this tree's, down, to even) and must hold under one of them
+        uint32_t got = obs::lwe_phase(y, kout->key, nout);
+        uint32_t acc_conv[3]; int wraps = 0, ups = 0, ties = 0; int64_t maxdev = 0;
+        for (int conv = 0; conv < 3; conv++) {
+            uint32_t acc = (uint32_t) x->b;
+            for (int i = 0; i < nin; i++) {
+                uint32_t ai = (uint32_t) x->a[i], at = obs::ks_round(ai, t, bb), trunc = ai & ~(unit - 1);
+                bool tie = (ai & (unit - 1)) == half;
+                if (tie && conv == 1) at = trunc;                                            // ties down
+                if (tie && conv == 2) at = ((trunc >> (32 - t * bb)) & 1u) ? trunc + unit : trunc;   // ties to even
+                if (conv == 0) {
+                    if (tie && kin->key[i]) ties++;
+                    if (at != trunc) ups++;
+                    if (at == 0 && trunc != 0) wraps++;
+                    maxdev = std::max<int64_t>(maxdev, std::llabs((int64_t) sdiff(ai, at)));
+                }
+                acc -= (uint32_t) kin->key[i] * at;
+                for (int j = 0; j < t; j++) { uint32_t d = (at >> (32 - (j + 1) * bb)) & (uint32_t) (base - 1); if (d) acc -= (uint32_t) noise[((size_t) i * t + j) * base + d]; }
+            }
+            acc_conv[conv] = acc;
         }
         if (maxdev > (int64_t) half) r.v.raise("oracle-selftest", "C08.selftest", "observer rounding exceeds half a unit", opi);
         if (wraps) r.probes.add("ks_wraparound", (uint64_t) wraps);
         if (ups) r.probes.add("ks_round_up", (uint64_t) ups);
-        uint32_t got = obs::lwe_phase(y, kout->key, nout);
-        if (got != acc)
+        if (ties) r.probes.add("ks_exact_ties", (uint64_t) ties);
+        uint32_t acc = acc_conv[0];
+        if (got != acc_conv[0] && got != acc_conv[1] && got != acc_conv[2])
             r.v.raise("keyswitch-identity", "C08.exact", fmt("lweKeySwitch (t=%d basebit=%d, %d->%d, %s key, mask mode %d): phase(result) %d != b - sum s_i*round(a_i) - used-row noises %d (difference %d)", t, bb, nin, nout, o.geti("noisy") ? "noisy" : "noiseless", (int) o.geti("mask"), (int32_t) got, (int32_t) acc, sdiff(got, acc)), opi);
+        if (got != acc_conv[0]) r.probes.add("ks_other_tie_convention");
         r.probes.add("keyswitch_checked");
     }
     r.probes.add(fmt("ks_layout_t%d_b%d", t, bb));
